@@ -68,6 +68,102 @@ def scope_cases(ctx):
     return out
 
 
+# ---- names the generator derives itself vs. component keys that spell the same Rust name --------------------
+DERIVED = [["request"], ["response"], ["request", "params"], ["response", "enum"], ["request", "query"], ["request", "path"],
+           ["request", "header"], ["request", "body"]]
+OP_IDS = ["createPet", "lookup_owner", "get", "list-items"]
+ID_CLASHES = [["createPet", "create_pet"], ["create_pet_2", "create_pet2"], ["createPet", "create_pet", "create_pet2"], ["a_b", "aB", "a-b"], ["get", "Get"],
+              ["x1", "x_1"], ["list", "list_2", "list2"], ["fetch", "fetchAll"], ["HTTPGet", "httpGet", "http_get"]]
+HOOK_DOCS = [(["create"], ["create"]), (["pets_list", "pets_create"], ["on_pet_create", "on_pet_delete"]), (["create_pet_2"], ["create_pet2"]), (["list", "create"], ["list2", "make"]),
+             (["pets_list", "pets_create"], ["pets_create", "pets_delete"]), (["api_a", "api_b"], ["a", "b"]), (["a", "b"], ["hook_a", "hook_b"]), (["list"], []), ([], ["ping"]),
+             (["get_user", "get_team"], ["user", "team"]), (["user_changed"], ["userChanged", "user-changed"])]
+
+
+def prepare(case):
+    d = case["in"]
+    if d.get("kind") != "opnames" or "spec" in d:
+        return case
+    import re
+    from specgen import opnames_spec, opnames_entities
+    ops, hooks, schemas = d.get("ops") or [], d.get("hooks") or [], d.get("schemas") or []
+    assert ops or hooks
+    assert all(o.get("id") and o.get("p", "").startswith("/") and o.get("m", "get") in ("get", "post", "put", "delete", "patch") for o in ops)
+    assert all(o.get("id") and re.fullmatch(r"[a-z][A-Za-z0-9]*", o.get("name", "")) for o in hooks)
+    assert len({(o["p"], o.get("m", "get")) for o in ops}) == len(ops) and len({(o["name"], o.get("m", "post")) for o in hooks}) == len(hooks)
+    keys = [s.get("key") for s in schemas]
+    assert all(k and re.search(r"[A-Za-z]", k) for k in keys) and len(set(keys)) == len(keys)
+    assert all(("enum" in s and s["enum"]) or s.get("oneOf") or s.get("members") for s in schemas)
+    for o in ops + hooks:
+        for k in ("body", "resp"):
+            v = o.get(k)
+            assert v is None or v == "inline" or v in keys or (v.startswith("arr:") and v[4:] in keys)
+        assert all(re.fullmatch(r"[A-Za-z][A-Za-z0-9_-]*", n) for n in (o.get("q") or []) + (o.get("h") or []))
+    spec = opnames_spec(d)
+    return {"op": case["op"], "in": dict(d, spec=spec, entities=opnames_entities(d), cfg=d.get("cfg") or {"all_schemas": True}, mode="client-mod", want=["registry"])}
+
+
+def opnames_cases(ctx):
+    from specgen import NAME_STYLES, words_of, spell
+    r = ctx.rng
+    out = []
+    def case(ops, schemas, hooks=None, sub="derived"):
+        d = {"kind": "opnames", "sub": sub, "ops": ops, "schemas": schemas}
+        if hooks:
+            d["hooks"] = hooks
+        out.append({"op": "naming.scopes", "in": d})
+    obj = lambda key, n=3: {"key": key, "members": ["m%d" % i for i in range(1, n + 1)]}
+    full = lambda oid, **kw: dict({"id": oid, "m": "post", "p": "/things/{tid}", "q": ["dry_run"], "h": ["X-Trace"], "body": "inline", "resp": "inline"}, **kw)
+    other = {"id": "zzOther", "m": "get", "p": "/zz", "q": ["f"], "resp": None}
+    # (A) one component key that spells `<OpId><derived suffix>` in each style, used by the operation or by nobody
+    combos = [(oid, sfx, st, use) for oid in OP_IDS for sfx in DERIVED for st in NAME_STYLES for use in (None, "body", "resp")]
+    for oid, sfx, st, use in (r.sample(combos, 90) if ctx.quick else combos):
+        key = spell(words_of(oid) + sfx, st)
+        kw = {use: key} if use else {}
+        case([full(oid, **kw), other], [obj(key)])
+    # both the first choice and the fallback are taken
+    for oid in OP_IDS:
+        for a, b in ((["request"], ["request", "params"]), (["response"], ["response", "enum"])):
+            for st1, st2 in ([("pascal", "snake"), ("camel", "pascal")] if ctx.quick else [(x, y) for x in NAME_STYLES for y in NAME_STYLES]):
+                k1, k2 = spell(words_of(oid) + a, st1), spell(words_of(oid) + b, st2)
+                if k1 != k2:
+                    case([full(oid), other], [obj(k1), obj(k2, 2)], sub="fallback")
+    # the demonstration document of the registry change: a schema per spelling next to an unrelated user of it
+    case([full("createPet", body="createPetRequest", resp="create_pet_response"), {"id": "lookupOwner", "m": "get", "p": "/owners/{id}", "resp": "create_pet_response"}],
+         [{"key": "createPetRequest", "members": ["pet_name", "pet_tag"]}, {"key": "create_pet_response", "members": ["pet_id", "pet_name"]}])
+    # (B) `<Parent><Prop>` inline member types and union variant structs next to a component of that Rust name
+    parents = ["Pet", "pet", "pet_store", "PetStore", "pet-store"]
+    for parent in parents:
+        for st in (r.sample(NAME_STYLES, 2) if ctx.quick else NAME_STYLES):
+            for prop, kind in (("owner", "inline"), ("status", "inline_enum")):
+                key = spell(words_of(parent) + [prop], st)
+                if key == parent:
+                    continue
+                ps = {"key": parent, "members": ["name"]}
+                ps[kind] = {prop: ["street", "zip"]} if kind == "inline" else {prop: ["on", "off"]}
+                case([full("getIt", resp=parent), other], [ps, obj(key)], sub="inline")
+            key = spell(words_of(parent) + ["circle"], st)
+            case([full("getIt", resp=parent), other], [{"key": parent, "oneOf": [["Circle", ["r"]], ["Square", ["side"]]]}, obj(key)], sub="variant")
+    # (C) operation ids that differ as written but come close (or equal) as snake_case ids / PascalCase type names
+    for ids in ID_CLASHES:
+        case([{"id": x, "m": "get", "p": "/p%d" % i, "q": ["f%d" % i], "resp": None} for i, x in enumerate(ids)], [], sub="ids")
+        if len(ids) >= 2:
+            case([{"id": ids[0], "m": "get", "p": "/p0", "q": ["f"], "resp": None}], [], hooks=[{"id": x, "name": "hook%d" % i, "m": "post", "h": ["X-Sig"], "body": "inline", "resp": None} for i, x in enumerate(ids[1:])], sub="ids-hooks")
+    # (D) `webhooks` next to `paths`
+    for hi, wi in HOOK_DOCS:
+        for schemas in ([], [obj("Pet")]):
+            case([{"id": x, "m": "get" if i % 2 == 0 else "post", "p": "/p%d" % (i // 2), "q": ["f"], "resp": "Pet" if schemas and i == 0 else None} for i, x in enumerate(hi)], schemas,
+                 hooks=[{"id": x, "name": "hook%d" % i, "m": "post", "h": ["X-Sig"], "body": ("Pet" if schemas else "inline"), "resp": None} for i, x in enumerate(wi)], sub="hooks")
+    verbs = ["list", "create", "delete", "get", "update"]
+    for _ in range(30 if ctx.quick else 600):
+        pre_h, pre_w = r.choice(["", "pets_", "api_pets_", "pet_"]), r.choice(["", "on_pet_", "on_", "pets_", "hook_"])
+        suf_h, suf_w = r.choice(["", "", "_v1"]), r.choice(["", "", "_event", "_v1"])
+        hi = [pre_h + v + suf_h for v in r.sample(verbs, r.randint(1, 3))]
+        wi = [pre_w + v + suf_w for v in r.sample(verbs, r.randint(1, 3))]
+        case([{"id": x, "m": "get", "p": "/p%d" % i, "q": ["f"], "resp": None} for i, x in enumerate(hi)], [],
+             hooks=[{"id": x, "name": "hook%d" % i, "m": "post", "h": ["X-Sig"], "body": "inline", "resp": None} for i, x in enumerate(wi)], sub="hooks-random")
+    return out
+
+
 def run(ctx):
     ok_t = ctx.translate(["naming"])
     proofs_ok, driver_ok = ctx.build_lean(["Oas3Model.Props.C09"])
@@ -79,6 +175,11 @@ def run(ctx):
         corpus = vlib_corpus(ctx)
         sc = scope_cases(ctx)
         ctx.classify(ctx.evaluate(sc), shrink=False, tie="E")
+        ctx.prepare = prepare
+        on = [c for c in corpus if c["op"] == "naming.scopes"] + opnames_cases(ctx)
+        corpus = [c for c in corpus if c["op"] != "naming.scopes"]
+        ctx.classify(ctx.evaluate(on, tie="E"), shrink=True, tie="E")
+        ctx.prepare = None
         allc = corpus + cases(ctx)
         B = 20000
         for i in range(0, len(allc), B):
@@ -88,7 +189,7 @@ def run(ctx):
     return ctx.finish(
         checker_cmd="lake build Oas3Model.Props.C09 && #print axioms on every theorem" + ("" if ctx.quick else " && leanchecker Oas3Model.Props.C09"),
         trusted_base=vlib.TRUSTED_BASE + ["any_ascii (parameter tr of every theorem; real table shipped per case)", "inflections to_snake_case/to_constant_case modelled on ASCII", "Rust reference keyword list (hand-written spec table rustKeywords)"],
-        rule="bounded-exhaustive strings over the 15-symbol alphabet of the property's quantifier (len<=3 quick, <=5 thorough, plus r#-prefixed) through each of the 3 sanitisers + all keywords/reserved names + random word mixes + ensure_unique states; non-trivial = reaches a branch other than 'plain' (raw, neg, kw, unicode, empty, digit, probe); distinct by (op,input) hash",
+        rule="bounded-exhaustive strings over the 15-symbol alphabet of the property's quantifier (len<=3 quick, <=5 thorough, plus r#-prefixed) through each of the 3 sanitisers + all keywords/reserved names + random word mixes + ensure_unique states; E (naming.scopes): collision classes in struct fields / enum variants / union labels, and documents whose component keys (6 spellings) equal the names the generator derives itself (<Op>Request/Response/RequestParams/ResponseEnum/RequestQuery|Path|Header|Body, <Parent><Prop>, union variant structs), near-equal operation ids, webhooks next to paths - judged on module items, client methods and registry rows; non-trivial = reaches a branch other than 'plain' (raw, neg, kw, unicode, empty, digit, probe); distinct by (op,input) hash",
         assumptions=["any_ascii is a per-character map that is the identity on ASCII", "sanitised strings are ASCII, where inflections' Unicode case predicates coincide with the ASCII ones"])
 
 
